@@ -627,10 +627,14 @@ class Watcher(object):
 
     def _get_stdin_socket_fd(self):
         if self.stdin_socket is not None:
-            if self.stdin_socket not in self.sockets:
+            name = self.stdin_socket
+            if name not in self.sockets and name.lower() in self.sockets:
+                # socket names read from a configuration file are lower-cased
+                name = name.lower()
+            if name not in self.sockets:
                 raise Exception("stdin_socket '%s' does not exist" %
                                 self.stdin_socket)
-            return self.sockets[self.stdin_socket].fileno()
+            return self.sockets[name].fileno()
 
     def spawn_process(self, recovery_wid=None):
         """Spawn process.
